@@ -42,9 +42,10 @@ R1_EXCEPTIONS = {
 }
 
 
-def _is_exec_option_read(e: ast.AST) -> bool:
+def _is_exec_option_read(e: ast.AST, merged_only: bool = False) -> bool:
     """`X.execution_options.get("schema_translate_map", ...)` / `X.execution_options["schema_translate_map"]`
-    (also `_execution_options`, or a bare `exec_opts`/`execution_options` name)."""
+    (also `_execution_options`, or a bare `exec_opts`/`execution_options` name).  `merged_only`: do not accept
+    `X._execution_options` -- the options of ONE level (a connection's, a statement's), not those of the execution."""
     if isinstance(e, ast.Call) and isinstance(e.func, ast.Attribute) and e.func.attr == "get" and e.args:
         recv = e.func.value
         key = const_str(e.args[0])
@@ -57,6 +58,8 @@ def _is_exec_option_read(e: ast.AST) -> bool:
         return False
     d = dotted(recv) or ""
     last = d.rsplit(".", 1)[-1]
+    if merged_only:
+        return last in ("execution_options", "exec_opts")
     return last in ("execution_options", "_execution_options", "exec_opts")
 
 
@@ -71,8 +74,10 @@ class MapSource:
         """set of ('exec-options'|'compiled-map'|'param:<name>'|'none'|'empty'|'unknown:<txt>')"""
         if depth > 6:
             return {"unknown:depth"}
-        if _is_exec_option_read(e):
+        if _is_exec_option_read(e, merged_only=True):
             return {"exec-options"}
+        if _is_exec_option_read(e):
+            return {"single-level-options"}
         if isinstance(e, ast.Constant) and e.value is None:
             return {"none"}
         if isinstance(e, ast.Dict) and not e.keys:
@@ -80,8 +85,9 @@ class MapSource:
         if isinstance(e, ast.Attribute) and e.attr == OPT:
             return {"compiled-map"}
         if isinstance(e, ast.Attribute) and e.attr == "_" + OPT:
-            # Connection._schema_translate_map property: reads the connection's execution options
-            return {"exec-options"}
+            # Connection._schema_translate_map property: reads the CONNECTION's options only, not the merge with
+            # the statement's and the per-execution options that the executing context holds
+            return {"single-level-options"}
         if isinstance(e, ast.Name):
             binds, entry = self.of.reaching(e.id, fn, at)
             out = set()
@@ -210,9 +216,90 @@ def r1(ctx):
               "no caller outside testing/ passes render_schema_translate", None)
 
 
-@R.rule("C16-R2", floor=3, template="T-TABLE",
-        desc="the compiled-cache key of ClauseElement._compile_w_cache contains bool(schema_translate_map) of the "
-             "same map that is handed to the compiler")
+# ---------------------------------------------------------------------- predicates of a map value
+def _pred_of_map(e, is_map):
+    """Classify a boolean-valued expression as a predicate of ONE map value.
+    -> ('truthy'|'not-none', positive: bool) | None (not a recognised predicate of a map)."""
+    if is_map(e):
+        return ("truthy", True)
+    if isinstance(e, ast.Call) and isinstance(e.func, ast.Name) and e.func.id == "bool" and len(e.args) == 1 and not e.keywords:
+        return _pred_of_map(e.args[0], is_map)
+    if isinstance(e, ast.UnaryOp) and isinstance(e.op, ast.Not):
+        r = _pred_of_map(e.operand, is_map)
+        return None if r is None else (r[0], not r[1])
+    if isinstance(e, ast.IfExp) and all(isinstance(x, ast.Constant) and isinstance(x.value, bool) for x in (e.body, e.orelse)) \
+            and e.body.value != e.orelse.value:
+        r = _pred_of_map(e.test, is_map)
+        return None if r is None else (r[0], r[1] if e.body.value else not r[1])
+    if isinstance(e, ast.Compare) and len(e.ops) == 1:
+        l, op, r_ = e.left, e.ops[0], e.comparators[0]
+        if is_map(r_) and isinstance(l, ast.Constant):
+            l, r_ = r_, l
+            op = {ast.Lt: ast.Gt, ast.Gt: ast.Lt, ast.LtE: ast.GtE, ast.GtE: ast.LtE}.get(type(op), type(op))()
+        if is_map(l) and isinstance(r_, ast.Constant) and r_.value is None:
+            if isinstance(op, (ast.IsNot, ast.NotEq)):
+                return ("not-none", True)
+            if isinstance(op, (ast.Is, ast.Eq)):
+                return ("not-none", False)
+        if isinstance(l, ast.Call) and isinstance(l.func, ast.Name) and l.func.id == "len" and len(l.args) == 1 and is_map(l.args[0]) \
+                and isinstance(r_, ast.Constant) and isinstance(r_.value, int):
+            k = r_.value
+            if (isinstance(op, ast.Gt) and k == 0) or (isinstance(op, ast.NotEq) and k == 0) or (isinstance(op, ast.GtE) and k == 1):
+                return ("truthy", True)
+            if (isinstance(op, ast.Eq) and k == 0) or (isinstance(op, ast.Lt) and k == 1) or (isinstance(op, ast.LtE) and k == 0):
+                return ("truthy", False)
+    return None
+
+
+def _guard_atoms_nodes(test, pol):
+    """[(atom expr, polarity)] of a guard: `a and b` taken / `a or b` not taken split into their operands,
+    `not` flips; anything else is one atom."""
+    if isinstance(test, ast.UnaryOp) and isinstance(test.op, ast.Not):
+        return _guard_atoms_nodes(test.operand, not pol)
+    if isinstance(test, ast.BoolOp) and ((isinstance(test.op, ast.And) and pol) or (isinstance(test.op, ast.Or) and not pol)):
+        out = []
+        for v in test.values:
+            out += _guard_atoms_nodes(v, pol)
+        return out
+    return [(test, pol)]
+
+
+def _map_gates(ctx, f, node, is_map, what):
+    """Predicates of a map value among the lexical guards of `node` in `f`: [(class, guard text)].
+    A guard that mentions a map value but is not a recognised predicate of it is an unknown idiom."""
+    pm = f.module.parents()
+    out = []
+    for test, pol in lexical_guards(pm, node, stop=f.node):
+        for atom, apol in _guard_atoms_nodes(test, pol):
+            if not any(is_map(x) for x in ast.walk(atom)):
+                continue
+            if isinstance(atom, ast.Compare) and len(atom.ops) == 1 and isinstance(atom.ops[0], (ast.In, ast.NotIn)) \
+                    and not is_map(atom.left) and is_map(atom.comparators[0]):
+                continue  # key membership (`None in map`), not a gate on the map as a whole
+            r = _pred_of_map(atom, is_map)
+            ctx.require(r is not None, f"{f.key}: {what}: guard `{unparse(atom)}` on the map is not a recognised predicate "
+                                       f"(truthiness / is-None / len)")
+            cls, positive = r
+            ctx.require(positive == apol, f"{f.key}: {what} runs when the map is ABSENT (`{unparse(atom)}` is {apol})")
+            out.append((cls, unparse(atom)))
+    return out
+
+
+def _conj(gates):
+    """conjunction of predicates of one map: `m is not None and m` is truthiness."""
+    cls = "truthy" if any(c == "truthy" for c, _ in gates) else "not-none"
+    return cls, " and ".join(dict.fromkeys(t for _, t in gates))
+
+
+# G (compile-time gate) ==> P (later gate on the stored / executing map) for every map with the same key component
+_IMPLIES = {("truthy", "truthy"), ("truthy", "not-none"), ("not-none", "not-none")}
+_MEANING = {"truthy": "non-empty map", "not-none": "any map, including an empty one", "full": "the map itself"}
+
+
+@R.rule("C16-R2", floor=8, template="T-TABLE/T-SIBLING",
+        desc="ClauseElement._compile_w_cache hands the map to the compiler and its cache key carries a predicate of that "
+             "map which is the SAME predicate Compiled.__init__ uses to decide whether placeholders are rendered; every "
+             "later gate on the compiled / executing map at a placeholder-substitution site is implied by that predicate")
 def r2(ctx):
     f = ctx.func("sql/elements.py::ClauseElement._compile_w_cache")
     # the key: name K with `cache[K] = ...` and `cache.get(K)`
@@ -235,12 +322,83 @@ def r2(ctx):
                   f"{OPT}={unparse(kv[0]) if kv else '?'}", f"{f.module.path}:{c.lineno}")
         if kv and isinstance(kv[0], ast.Name):
             passed.add(kv[0].id)
-    elts = [unparse(e).replace(" ", "") for e in tuples[0].elts]
-    good = bool(passed) and all(f"bool({p})" in elts for p in passed)
-    ctx.check(good, f"{f.key}:key-has-bool-map",
-              f"cache key {elts} lacks bool({'/'.join(sorted(passed)) or OPT}): a statement compiled without placeholders "
-              f"would be served to an execution that has a map (or vice versa)",
-              f"key contains bool({'/'.join(sorted(passed))})", f.loc)
+
+    # (1) the compile-time gate G: under which predicate of its map parameter does Compiled.__init__ store the map
+    #     and switch to the placeholder-rendering preparer
+    ci = ctx.func(f"{COMP}::Compiled.__init__")
+    ctx.require(OPT in ci.params, f"{ci.key} has no `{OPT}` parameter")
+    ctx.functions_analysed.add(ci.key)
+    is_param = lambda x: isinstance(x, ast.Name) and x.id == OPT
+    store_sts = [st for t, node, st in attr_stores(ci.node) if t == f"self.{OPT}" and isinstance(st, ast.Assign) and is_param(st.value)]
+    swap_calls = [c for c in calls_in(ci.node) if (call_name(c) or "").endswith("._with_schema_translate") and c.args and is_param(c.args[0])]
+    ctx.require(len(store_sts) == 1 and len(swap_calls) == 1,
+                f"{ci.key}: expected one `self.{OPT} = {OPT}` and one `_with_schema_translate({OPT})`")
+    g_store = _map_gates(ctx, ci, store_sts[0], is_param, f"the store of self.{OPT}")
+    g_swap = _map_gates(ctx, ci, swap_calls[0], is_param, "the switch to the placeholder preparer")
+    ctx.require(g_swap, f"{ci.key}: the switch to the placeholder preparer is not under any predicate of the map")
+    G, gtxt = _conj(g_swap)
+    ctx.check(bool(g_store) and _conj(g_store)[0] == G, f"{ci.key}:placeholder-gate",
+              f"`self.{OPT}` is stored under {g_store} but the placeholder preparer is installed under `{gtxt}` ({G}): the execution-time "
+              f"gates read the stored attribute and would disagree with what was rendered",
+              f"map stored and placeholder preparer installed under one predicate `{gtxt}` ({G}: {_MEANING[G]})", ci.loc)
+
+    # (2) the key component K: a function of the map from which G can be recomputed
+    comps = []
+    for e in tuples[0].elts:
+        v = e
+        if isinstance(e, ast.Name) and e.id not in passed:
+            b = [val for n, val, st in name_stores(f.node) if n == e.id]
+            if len(b) == 1 and b[0] is not None:
+                v = b[0]
+        if any(isinstance(x, ast.Name) and x.id in passed for x in ast.walk(v)):
+            comps.append((e, v))
+    key = f"{f.key}:key-component-decides-placeholder-gate"
+    if not (passed and len(comps) == 1):
+        ctx.check(False, key,
+                  f"cache key {[unparse(e) for e in tuples[0].elts]} has {len(comps)} component(s) computed from the map given to the "
+                  f"compiler ({'/'.join(sorted(passed)) or '?'}): a statement compiled without placeholders would be served to an "
+                  f"execution that has a map (or vice versa)", "", f.loc)
+    else:
+        e, v = comps[0]
+        is_passed = lambda x: isinstance(x, ast.Name) and x.id in passed
+        if is_passed(v):
+            K = ("full", True)
+        else:
+            K = _pred_of_map(v, is_passed)
+            ctx.require(K is not None, f"{f.key}: key component `{unparse(v)}` is not a recognised predicate of the map")
+        ctx.check(K[0] in ("full", G), key,
+                  f"the key component `{unparse(v)}` distinguishes maps by '{K[0]}' ({_MEANING[K[0]]}) but {ci.qualname} renders "
+                  f"placeholders under `{gtxt}` ('{G}': {_MEANING[G]}): an empty map and a non-empty map then share one cache slot "
+                  f"although only one of them compiles with placeholders -- the statement cached first is served to the other and is "
+                  f"executed with untranslated (or unsubstituted) schema names",
+                  f"key component `{unparse(v)}` ('{K[0]}') == compile-time gate `{gtxt}` in {ci.qualname}", f.loc)
+
+    # (3) later gates P at the substitution sites: G(map) must imply P(map)
+    sites, target = _rst_sites(ctx)
+    ms = MapSource(ctx)
+    seen_fn = {}
+    for fn, expr, st, how, node in sites:
+        names = _map_names(fn, ms)
+        is_m = lambda x, names=names: (isinstance(x, ast.Attribute) and x.attr == OPT) or (isinstance(x, ast.Name) and x.id in names)
+        gates = []
+        # guards of the use itself and of every statement that binds an alias / partial of the renderer
+        for n in walk_local(fn.node, into_nested=True):
+            if isinstance(n, ast.Attribute) and n.attr == RST and isinstance(n.ctx, ast.Load):
+                gates += _map_gates(ctx, fn, n, is_m, "placeholder substitution")
+        gates += _map_gates(ctx, fn, node, is_m, "placeholder substitution")
+        if fn.key in seen_fn:
+            continue
+        seen_fn[fn.key] = True
+        gates = sorted(set(gates))
+        if not gates:
+            continue
+        ctx.functions_analysed.add(fn.key)
+        P, ptxt = _conj(gates)
+        bad = [(P, ptxt)] if (G, P) not in _IMPLIES else []
+        ctx.check(not bad, f"{fn.key}:substitution-gate",
+                  f"placeholders are rendered at compile time under '{G}' (`{gtxt}`) but substituted here only under {bad}: a statement "
+                  f"compiled with placeholders for a map that fails this test is sent to the database with `__[SCHEMA_..]` tokens",
+                  f"gate(s) {[t for _, t in gates]} implied by the compile-time gate '{G}'", fn.loc)
 
 
 def _const_strings(node):
@@ -455,6 +613,183 @@ def _in_nested(f, st) -> bool:
             return True
         cur = pm.get(cur)
     return False
+
+
+# ---------------------------------------------------------------------- R5: one options object per execution
+BASE = "engine/base.py"
+CONN = f"{BASE}::Connection"
+DCTX = f"{DEF}::DefaultExecutionContext"
+COMPILE_CALLS = ("compile", "_compile_w_cache", "_compiler")
+
+
+def _opt_read_receiver(e):
+    """`R.get("schema_translate_map"[, d])` / `R["schema_translate_map"]` -> dotted text of R, else None."""
+    if isinstance(e, ast.Call) and isinstance(e.func, ast.Attribute) and e.func.attr == "get" and e.args and const_str(e.args[0]) == OPT:
+        return dotted(e.func.value) or unparse(e.func.value)
+    if isinstance(e, ast.Subscript) and const_str(e.slice) == OPT:
+        return dotted(e.value) or unparse(e.value)
+    return None
+
+
+def _map_receivers(of, e, fn, at, depth=0):
+    """Where a map expression is read from: set of 'opts:<receiver>' | 'none' | 'other:<text>' (names are
+    followed through the bindings that reach `at`)."""
+    r = _opt_read_receiver(e)
+    if r is not None:
+        return {"opts:" + r}
+    if isinstance(e, ast.Constant) and e.value is None:
+        return {"none"}
+    if isinstance(e, ast.IfExp):
+        return _map_receivers(of, e.body, fn, at, depth + 1) | _map_receivers(of, e.orelse, fn, at, depth + 1)
+    if isinstance(e, ast.Name) and depth < 6:
+        binds, entry = of.reaching(e.id, fn, at)
+        out = set()
+        if entry and (e.id in fn.params or not binds):
+            out.add(f"other:parameter/free name {e.id}")
+        for v, st in binds:
+            out |= {f"other:{unparse(st)[:50]}"} if v is None else _map_receivers(of, v, fn, st, depth + 1)
+        return out
+    return {"other:" + unparse(e)[:60]}
+
+
+def _compile_sites(f):
+    """calls `<x>.compile(..., dialect=...)` / `<x>._compile_w_cache(...)` / `<x>._compiler(...)` in f:
+    a statement is compiled here in order to be executed by this connection / context."""
+    out = []
+    for c in calls_in(f.node, into_nested=True):
+        if not isinstance(c.func, ast.Attribute) or c.func.attr not in COMPILE_CALLS:
+            continue
+        if dotted(c.func.value) == "re":
+            continue
+        if c.func.attr == "compile" and not any(k.arg == "dialect" for k in c.keywords) and not c.args:
+            continue  # str()/repr() style compile against the default dialect: not for execution
+        out.append(c)
+    return out
+
+
+@R.rule("C16-R5", floor=12, template="T-SIBLING/T-FLOW",
+        desc="one options object per execution: every Connection entry point that creates an execution context hands it "
+             "the merge of connection-level and per-execution options, reads the map it compiles with from that SAME "
+             "merged object, and every statement compiled for execution inside Connection / ExecutionContext receives "
+             "schema_translate_map= from the executing options; the context stores exactly the options it was given")
+def r5(ctx):
+    of = OrderFlow(ctx)
+    conn = ctx.index.cls(CONN)
+    dctx = ctx.index.cls(DCTX)
+    ectx = ctx.func(f"{CONN}._execute_context")
+    ctx.functions_analysed.add(ectx.key)
+
+    # (a) the context constructors named by the connection, and what each does with its options parameter
+    init_names = set()
+    for f in conn.methods.values():
+        for n in ast.walk(f.node):
+            if isinstance(n, ast.Attribute) and isinstance(n.value, ast.Attribute) and n.value.attr == "execution_ctx_cls":
+                init_names.add(n.attr)
+    ctx.require(init_names, f"{CONN}: no use of dialect.execution_ctx_cls.<constructor>")
+    opt_pos = None
+    for nm in sorted(init_names):
+        ini = ctx.method(DCTX, nm)
+        ctx.functions_analysed.add(ini.key)
+        params = [p for p in ini.params if p not in ("self", "cls")]
+        ctx.require("execution_options" in params, f"{ini.key}: no `execution_options` parameter")
+        pos = params.index("execution_options")
+        ctx.require(opt_pos in (None, pos), f"{ini.key}: options parameter at position {pos}, siblings have it at {opt_pos}")
+        opt_pos = pos
+        stores = [st for t, node, st in attr_stores(ini.node) if t.endswith(".execution_options") and t.count(".") == 1]
+        good = [st for st in stores if isinstance(st, ast.Assign) and isinstance(st.value, ast.Name) and st.value.id == "execution_options"
+                and not [1 for n2, v2, s2 in name_stores(ini.node) if n2 == "execution_options"]]
+        ctx.check(stores and len(good) == len(stores), f"{ini.key}:stores-given-options",
+                  f"the context does not keep exactly the options object it was constructed with "
+                  f"({[unparse(s)[:60] for s in stores] or 'no store of self.execution_options'}): every execution-time read of "
+                  f"execution_options['{OPT}'] would see different options than the ones the statement was compiled under",
+                  "self.execution_options = execution_options (the parameter, never rebound)", ini.loc)
+
+    # (b) _execute_context forwards its options parameter to the constructor at that position
+    ctor_param = [p for p in ectx.params if p != "self"][1]
+    ctor_calls = [c for c in calls_in(ectx.node) if isinstance(c.func, ast.Name) and c.func.id == ctor_param]
+    ctx.require(len(ctor_calls) == 1, f"{ectx.key}: expected one call of the `{ctor_param}` parameter")
+    a = ctor_calls[0].args[opt_pos] if len(ctor_calls[0].args) > opt_pos else None
+    okfwd = False
+    if isinstance(a, ast.Name) and a.id in ectx.params:
+        # rebinding is allowed only to an extension of itself: X = X.union(...) / X.merge_with(...)
+        rebinds = [v for n2, v, st in name_stores(ectx.node) if n2 == a.id]
+        okfwd = all(isinstance(v, ast.Call) and isinstance(v.func, ast.Attribute) and v.func.attr in ("union", "merge_with")
+                    and dotted(v.func.value) == a.id for v in rebinds)
+    ctx.check(okfwd, f"{ectx.key}:constructor-receives-options",
+              f"the context constructor is given `{unparse(a) if a is not None else '?'}` instead of the caller's merged options (or an extension of them)",
+              f"constructor(..., {unparse(a) if a is not None else '?'}, ...) = the `{a.id if isinstance(a, ast.Name) else '?'}` parameter (extended by union only)",
+              ectx.loc)
+    ectx_opt_param = a.id if isinstance(a, ast.Name) else None
+
+    # (c) the entry points: methods of Connection that create a context
+    entries = []
+    for name, f in sorted(conn.methods.items()):
+        if f is ectx:
+            continue
+        handed = []
+        for c in calls_in(f.node):
+            nm = call_name(c) or ""
+            if nm == f"self.{ectx.name}" and ectx_opt_param:
+                handed.append(arg_for(c, ectx, ectx_opt_param))
+            elif isinstance(c.func, ast.Attribute) and c.func.attr in init_names and isinstance(c.func.value, ast.Attribute) \
+                    and c.func.value.attr == "execution_ctx_cls":
+                handed.append(c.args[opt_pos] if len(c.args) > opt_pos else None)
+        if handed:
+            entries.append((f, handed))
+    ctx.require(entries, f"{CONN}: no method creates an execution context")
+    for f, handed in entries:
+        ctx.functions_analysed.add(f.key)
+        ctx.require(all(isinstance(h, ast.Name) for h in handed) and len({h.id for h in handed}) == 1,
+                    f"{f.key}: options handed to the context are not one local name: {[unparse(h) if h is not None else None for h in handed]}")
+        oname = handed[0].id
+        # (c1) that name is the merge of the connection's options and the per-execution options
+        binds = [(v, st) for n2, v, st in name_stores(f.node) if n2 == oname]
+        per_exec = [p for p in f.params if p == "execution_options"]
+        ctx.require(per_exec, f"{f.key}: no `execution_options` parameter")
+        bad = []
+        for v, st in binds:
+            operands = set()
+            if isinstance(v, ast.Call) and isinstance(v.func, ast.Attribute) and v.func.attr in ("merge_with", "union"):
+                operands = {dotted(v.func.value)} | {dotted(x) for x in v.args}
+            if not ({"self._execution_options", per_exec[0]} <= operands):
+                bad.append(unparse(st)[:90])
+        ctx.check(binds and not bad, f"{f.key}:context-options-merged",
+                  f"`{oname}`, the options the execution context works with, is not the merge of the connection's options and the "
+                  f"per-execution options: {bad or 'parameter passed through'} -- a {OPT} given on one of these levels is ignored",
+                  f"{oname} = merge of {sorted(operands) if binds else '?'}", f.loc)
+        # (c2) every compilation in the entry point receives the map, read from that same object
+        for c, (key, _) in zip(_compile_sites(f), ordinal_keys(_compile_sites(f), lambda c: f"{f.key}:compile-map")):
+            _judge_compile(ctx, of, f, c, key, {f"opts:{oname}"}, f"`{oname}` (the options handed to the execution context)")
+
+    # (d) statements compiled inside an execution context (pre-executed defaults etc.)
+    seen = set()
+    for cls in [dctx] + ctx.index.subclasses(dctx):
+        for name, f in sorted(cls.methods.items()):
+            if f.key in seen:
+                continue
+            seen.add(f.key)
+            cs = _compile_sites(f)
+            if cs:
+                ctx.functions_analysed.add(f.key)
+            for c, (key, _) in zip(cs, ordinal_keys(cs, lambda c: f"{f.key}:compile-map")):
+                _judge_compile(ctx, of, f, c, key, {"opts:self.execution_options"}, "`self.execution_options` of the executing context")
+
+
+def _judge_compile(ctx, of, f, c, key, want, want_txt):
+    loc = f"{f.module.path}:{c.lineno}"
+    kv = [k.value for k in c.keywords if k.arg == OPT]
+    what = f"`{unparse(c.func)}(...)`"
+    if not kv:
+        ctx.violation(key, f"{what} compiles a statement for execution without {OPT}=: no schema placeholders are rendered, so the "
+                           f"executing context's map cannot be applied and the SQL names the untranslated schemas", loc)
+        return
+    pm = f.module.parents()
+    src = _map_receivers(of, kv[0], f, enclosing_stmt(pm, c))
+    ctx.check(src <= (want | {"none"}) and src & want, key,
+              f"{what} is compiled with {OPT}=`{unparse(kv[0])}` read from {sorted(src)}, not from {want_txt}: placeholders are "
+              f"rendered (or not) according to one set of options and substituted at execution according to another, so a map "
+              f"given per execution / per statement is ignored or half applied",
+              f"{OPT}=`{unparse(kv[0])}` <- {sorted(src)}", loc)
 
 
 # ---------------------------------------------------------------------- self-test battery
